@@ -64,6 +64,7 @@ func (n *node) strobe() {
 	for to := range n.out {
 		out = append(out, to)
 	}
+	verifEv("strobe", n, nil)
 	n.mu.Unlock()
 
 	for _, to := range out {
@@ -76,6 +77,7 @@ func (n *node) invalidate() {
 	// check if we should invalidate, and figure out who we should invalidate
 	n.mu.Lock()
 	if n.invalidated {
+		verifEv("inv.noop", n, nil)
 		n.mu.Unlock()
 		return
 	}
@@ -91,6 +93,7 @@ func (n *node) invalidate() {
 	for to := range n.out {
 		out = append(out, to)
 	}
+	verifEv("inv", n, nil)
 	n.mu.Unlock()
 
 	if n.afterInvalidate != nil {
@@ -104,16 +107,19 @@ func (n *node) invalidate() {
 }
 
 func (n *node) release() {
+	verifEv("rel.begin", n, nil)
 	n.invalidate()
 
 	// check if we should release
 	n.mu.Lock()
 	if n.released {
+		verifEv("rel.noop", n, nil)
 		n.mu.Unlock()
 		return
 	}
 
 	n.released = true
+	verifEv("rel", n, nil)
 	n.mu.Unlock()
 
 	if n.afterRelease != nil {
@@ -127,6 +133,7 @@ func (n *node) release() {
 		from.mu.Lock()
 		delete(from.out, n)
 		shouldRelease := len(from.out) == 0
+		verifEv("rel.edge", from, n)
 		from.mu.Unlock()
 
 		if shouldRelease {
@@ -154,6 +161,9 @@ func (n *node) addOut(to *node) {
 		}
 		n.out[to] = struct{}{}
 		to.in = append(to.in, n)
+		verifEv("addOut", n, to)
+	} else {
+		verifEv("addOut.skip", n, to)
 	}
 
 	// invalidate to if n is invalidated
@@ -175,6 +185,7 @@ func (n *node) addOut(to *node) {
 
 func (n *node) handleInvalidate(f func()) {
 	n.mu.Lock()
+	verifEv("handle", n, nil)
 	if n.invalidated {
 		go f()
 	} else {
@@ -188,6 +199,7 @@ func (n *node) handleInvalidate(f func()) {
 
 func (n *node) handleRelease(f func()) {
 	n.mu.Lock()
+	verifEv("handleRelease", n, nil)
 	if n.released {
 		go f()
 	} else {
